@@ -138,6 +138,16 @@ fn emit(run: &mut Run, stream: &str, c: &Case) {
         }
         res.push(r);
     }
+    // the A/B comparison means nothing if the receivers accept no genuine traffic at all (e.g. wrong keys):
+    // every case delivers its first genuine packets in order, so B must have accepted something
+    let b_genuine = c.ops.iter().filter(|o| matches!(o, Op::UnprotectRtp(s, Src::Slot(_)) | Op::UnprotectRtcp(s, Src::Slot(_)) if *s == B)).count();
+    let b_accepted = c.ops.iter().zip(res.iter()).filter(|(o, r)| matches!(o, Op::UnprotectRtp(s, _) | Op::UnprotectRtcp(s, _) if *s == B) && r.is_ok()).count();
+    run.count_n(&format!("clean_receiver_genuine_deliveries:{}", w.prof[B]), b_genuine as u64);
+    run.count_n(&format!("clean_receiver_accepted:{}", w.prof[B]), b_accepted as u64);
+    if b_genuine > 0 && b_accepted == 0 && c.kind == "exhaustive-bitflip-truncation" {
+        // these cases deliver the stream's first packets in order: nothing accepted means the receivers cannot decode genuine traffic at all
+        run.fail(&format!("genuine-traffic-never-accepted:{}", w.prof[B]), &case, &format!("{b_genuine} genuine deliveries to the clean receiver, none accepted"));
+    }
     let nontrivial = res.iter().any(|r| matches!(r, Res::Rtp(_) | Res::Rtcp(_))) && res.iter().any(|r| matches!(r, Res::Err(e) if *e != "ok"));
     run.case(stream, &input, &results_text(&res), nontrivial);
     run.count(&format!("case_kind:{}", c.kind));
